@@ -53,7 +53,7 @@ func init() {
 			"dl_syncs_error":                   10,
 			"dl_resumes":                       10,
 			"dl_corrupt_items":                 100,
-			"dl_partial_answers":               50,
+			"dl_partial_answers":               30,
 			"dl_mode_drop":                     10,
 			"dl_mode_nil":                      10,
 			"dl_mode_empty":                    10,
